@@ -66,6 +66,16 @@ def m_fread(I, st, fr, n, this, args, an):
         # recognisable as coming back to the same state)
         st.comps[('feof', root)] = C(1)
         return [(st, C(0))]
+    # the file has one length: an earlier read of this stream that is known (by now) to have come up short fixes it at
+    # (its position + what it delivered), and a read at or beyond that point delivers nothing
+    pos0 = fpos(st, root)
+    if sz == C(1) and pos0 != TOP and is_int(pos0):
+        for p_i, g_i, c_i in st.comps.get(('reads', root), ()):
+            if g_i in st.sym and compare('<', sym(g_i), c_i, st.sym) is True:
+                end_ = binop('+', p_i, sym(g_i), st.sym)
+                if compare('>=', pos0, end_, st.sym) is True:
+                    st.comps[('feof', root)] = C(1)
+                    return [(st, C(0))]
     rc_ = rng(cnt, st.sym)
     if rc_:
         # the number of items read is one fixed unknown of this call: a named symbol, so that a later feof() test (set exactly
@@ -75,6 +85,8 @@ def m_fread(I, st, fr, n, this, args, an):
         st.sym[gname] = (0, rc_[1])
         got = sym(gname)
         st.comps[('lastread', root)] = (gname, cnt)
+        if sz == C(1) and pos0 != TOP and is_int(pos0) and is_int(cnt):
+            st.comps[('reads', root)] = (st.comps.get(('reads', root), ()) + ((pos0, gname, cnt),))[-8:]
     else:
         got = TOP
         st.comps.pop(('lastread', root), None)
@@ -382,6 +394,14 @@ def m_memcpy(I, st, fr, n, this, args, an):
             for kk in list(st.abs):
                 if kk[0] == rd[0] and kk[1][:len(rd[1])] == rd[1]:
                     st.mem[kk] = TOP
+            return [(st, dst)]
+    if rd is not None and rs is None and src[0] == 'p' and cnt[0] == 'c' and 1 <= cnt[1] <= 16 and isinstance(rd[2], int):
+        # a scalar object copied into a byte array: its object representation (little-endian), when the value is a constant
+        es = getattr(I, 'elem_size_hint', lambda p: 1)
+        v = st.mem.get((src[1], src[2]))
+        if (es(an[0]) or 1) == 1 and v is not None and v[0] == 'c':
+            for i in range(cnt[1]):
+                st.mem[elem_loc(rd[0], rd[1], rd[2] + i)] = C((v[1] >> (8 * i)) & 0xff)
             return [(st, dst)]
     if dst[0] == 'p':
         write_region(I, st, dst, cnt, 'memcpy', n)
